@@ -92,6 +92,58 @@ fn check_marginalize<const D: usize>(shape: [usize; D], axes: &[usize]) {
     assert!(total == scs.sum(), "total mass is preserved");
 }
 
+/// `Array::sum` by its contract: entry q of the result is the sum of the entries whose index with `axis` dropped
+/// is the row-major unflattening of q over the remaining axes.  Used as a CONTRACT STUB for `Array::sum` in the
+/// multi-axis marginalize harnesses (two real sums on a 12-cell array exhaust CBMC's memory); the real `sum` is
+/// checked against the same definition by the single-axis harnesses k_marg_2x3_a0/a1 and k_marg_2x3x2_a1.
+pub(crate) fn sum_by_definition(a: &Array<f64>, axis: Axis) -> Array<f64> {
+    let shape = a.shape().0.clone();
+    let d = shape.len();
+    let mut new_shape = Vec::with_capacity(d - 1);
+    let mut j = 0;
+    while j < d {
+        if j != axis.0 {
+            new_shape.push(shape[j]);
+        }
+        j += 1;
+    }
+    let n = product(&shape);
+    let m = product(&new_shape);
+    let mut out = vec![0.0f64; m];
+    let mut p = 0;
+    while p < n {
+        // flat position q of p's index with `axis` dropped
+        let mut rem = p;
+        let mut q = 0;
+        let mut mult = 1;
+        let mut j = d;
+        while j > 0 {
+            j -= 1;
+            let i = rem % shape[j];
+            rem /= shape[j];
+            if j != axis.0 {
+                q += i * mult;
+                mult *= shape[j];
+            }
+        }
+        out[q] += a.as_slice()[p];
+        p += 1;
+    }
+    Array::new(out, Shape(new_shape)).unwrap()
+}
+
+macro_rules! marg_stubbed {
+    ($name:ident, $unw:literal, $shape:expr, $axes:expr) => {
+        #[kani::proof]
+        #[kani::unwind($unw)]
+        #[kani::stub(crate::array::Array::sum, sum_by_definition)]
+        fn $name() {
+            check_marginalize($shape, &$axes);
+            kani::cover!(true);
+        }
+    };
+}
+
 // one marginalize call per harness (several calls in one harness exceeded 30 min / 6 GB)
 macro_rules! marg {
     ($name:ident, $unw:literal, $shape:expr, $axes:expr) => {
@@ -107,10 +159,11 @@ macro_rules! marg {
 marg!(k_marg_2x3_a0, 10, [2, 3], [0]);
 marg!(k_marg_2x3_a1, 10, [2, 3], [1]);
 marg!(k_marg_2x3x2_a1, 16, [2, 3, 2], [1]);
-marg!(k_marg_2x3x2_a20, 16, [2, 3, 2], [2, 0]);
-marg!(k_marg_2x3x2_a01, 16, [2, 3, 2], [0, 1]);
-marg!(k_marg_2x2x1x2_a302, 12, [2, 2, 1, 2], [3, 0, 2]);
-marg!(k_marg_2x2x1x2_a132, 12, [2, 2, 1, 2], [1, 3, 2]);
+marg_stubbed!(k_marg_2x3x2_a20, 16, [2, 3, 2], [2, 0]);
+marg_stubbed!(k_marg_2x3x2_a01, 16, [2, 3, 2], [0, 1]);
+marg_stubbed!(k_marg_2x2x1x2_a302, 12, [2, 2, 1, 2], [3, 0, 2]);
+marg_stubbed!(k_marg_2x2x1x2_a132, 12, [2, 2, 1, 2], [1, 3, 2]);
+marg_stubbed!(k_marg_2x3x1x2_a031, 16, [2, 3, 1, 2], [0, 3, 1]);
 
 /// error cases on concrete axis lists (a symbolic list did not finish in 1200 s): duplicates (adjacent
 /// and not), out-of-range axes (incl. usize::MAX), every axis removed, and combinations
